@@ -192,6 +192,7 @@ fn util_docs(la: &LangAtoms) -> Vec<RuleDoc> {
     rule,
     utils: utils.into_iter().map(|(a, b)| (a.to_string(), b)).collect(),
     constraints: BTreeMap::new(),
+    globals: BTreeMap::new(),
   };
   // chain through any/all/not
   docs.push(mk(m("u2"), vec![("u0", k(0)), ("u1", R::Any(vec![m("u0"), k(2)])), ("u2", R::All(vec![m("u1"), R::Not(Box::new(k(2)))]))]));
